@@ -83,12 +83,16 @@ type peekPred struct {
 var peekPreds = []peekPred{
 	{"never", func(lexer.Token) bool { return false }},
 	{"always", func(lexer.Token) bool { return true }},
-	{"type1", func(t lexer.Token) bool { return t.Type == 1 }},
-	{"type2or3", func(t lexer.Token) bool { return t.Type == 2 || t.Type == 3 }},
-	{"type4", func(t lexer.Token) bool { return t.Type == 4 }},
+	{"type1", func(t lexer.Token) bool { return t.Type == peekTypes[0] }},
+	{"type2or3", func(t lexer.Token) bool { return t.Type == peekTypes[1] || t.Type == peekTypes[2] }},
+	{"type4", func(t lexer.Token) bool { return t.Type == peekTypes[3] }},
 	{"valueA", func(t lexer.Token) bool { return t.Value == "a" }},
 	{"valueB", func(t lexer.Token) bool { return t.Value == "b" }},
 }
+
+// peekTypes is the token-type alphabet: negative types (what the stateful and text/scanner lexers
+// produce), zero and positive ones.
+var peekTypes = []lexer.TokenType{-3, -2, 0, 7}
 
 var peekOpNames = []string{"Peek", "Next", "RawPeek", "PeekAny", "FastForward", "Range", "Cursor", "MakeCheckpoint", "LoadCheckpoint", "Fork", "Drop", "PeekAnyFF"}
 
@@ -115,8 +119,8 @@ func runPeek(rc *RunCtx) *Violation {
 	var elideList []lexer.TokenType
 	for b := 0; b < 4; b++ {
 		if mask&(1<<b) != 0 {
-			m.elide[lexer.TokenType(b+1)] = true
-			elideList = append(elideList, lexer.TokenType(b+1))
+			m.elide[peekTypes[b]] = true
+			elideList = append(elideList, peekTypes[b])
 		}
 	}
 	if mask&16 != 0 {
@@ -127,7 +131,7 @@ func runPeek(rc *RunCtx) *Violation {
 	pos := lexer.Position{Filename: "peek", Line: 1, Column: 1}
 	flags := make([]byte, 0, n+1)
 	for i := 0; i < n; i++ {
-		tt := lexer.TokenType(1 + simrt.Choose(4))
+		tt := peekTypes[simrt.Choose(4)]
 		val := string(rune('a' + simrt.Choose(3)))
 		m.toks = append(m.toks, lexer.Token{Type: tt, Value: val, Pos: pos})
 		pos.Advance(val)
